@@ -254,3 +254,29 @@ func init() {
 	verifHarnesses["VerifC02TotalSymBase"] = VerifC02TotalSymBase
 	verifHarnesses["VerifC02TotalOps"] = VerifC02TotalOps
 }
+
+// VerifC02SortBytes: Sort and SortAbsolute return normally on lists whose names and values hold
+// arbitrary bytes (invalid UTF-8 included) after equal prefixes; the URL serializes afterwards.
+func VerifC02SortBytes() {
+	k := vnd.Param("C02.KSortBytes", 2, 3)
+	pre := []string{"", "a", "caf"}[vnd.Pick(3)]
+	n1 := pre + vnd.Str(vnd.Len(k))
+	n2 := pre + vnd.Str(vnd.Len(k))
+	u, err := Parse("http://h/?x=1")
+	if err != nil {
+		return
+	}
+	sp := u.SearchParams()
+	sp.Append(n1, "1")
+	sp.Append(n2, n1)
+	if vnd.Bool() {
+		sp.Sort()
+	} else {
+		sp.SortAbsolute()
+	}
+	vnd.Cover("sorted-bytes", true)
+	_ = u.Href(false)
+	_ = sp.String()
+}
+
+func init() { verifHarnesses["VerifC02SortBytes"] = VerifC02SortBytes }
